@@ -209,18 +209,22 @@ class Repository:
     @asynccontextmanager
     async def _acquire_slot(self):
         slot = await self._slots.get()
+        _verif.sync('slot+', free=self._slots.qsize())
         try:
             yield slot
         finally:
             self._slots.put_nowait(slot)
+            _verif.sync('slot-', free=self._slots.qsize())
 
     @contextmanager
     def _acquire_slot_threadsafe(self, *, loop):
         slot = asyncio.run_coroutine_threadsafe(self._slots.get(), loop).result()
+        _verif.sync('slot+', free=self._slots.qsize())
         try:
             yield slot
         finally:
             loop.call_soon_threadsafe(self._slots.put_nowait, slot)
+            _verif.sync('slot-', free=self._slots.qsize() + 1)
 
     async def _maybe_run_in_executor(self, func, *args, executor=None, **kwargs):
         if inspect.iscoroutinefunction(func):
@@ -1155,6 +1159,7 @@ class Repository:
 
             finished_tracker.update(finished_files_count)
             bytes_tracker.update(chunk.stream_end - chunk.stream_start)
+            _verif.sync('chunk_done', counter=chunk.counter)
 
         def _stream_files(chunk_size=16_777_216):
             chunk_size = _verif.override('snapshot.piece_size', chunk_size)
@@ -1238,6 +1243,7 @@ class Repository:
                     except queue.Full:
                         pass
                     else:
+                        _verif.sync('put', counter=chunk.counter)
                         break
 
         async def _worker(queue_timeout=0.025):
@@ -1247,6 +1253,8 @@ class Repository:
                 except queue.Empty:
                     await asyncio.sleep(queue_timeout)
                     continue
+
+                _verif.sync('get', counter=chunk.counter)
 
                 exists = await self._exists(chunk.location)
                 logger.info(
@@ -1312,6 +1320,7 @@ class Repository:
                 await asyncio.gather(*(_worker() for _ in range(self._concurrent)))
             except:
                 abort.set()
+                _verif.sync('abort')
                 raise
             finally:
                 await chunk_producer
@@ -1351,6 +1360,7 @@ class Repository:
         location = self.get_snapshot_location(name=name, tag=tag)
 
         self.display_status(f'Uploading snapshot {name}')
+        _verif.sync('commit', chunks=state.chunk_counter)
         await self._upload_data(location, serialized_snapshot)
 
         if state.bytes_reused:
@@ -1429,6 +1439,9 @@ class Repository:
                 self._write_file_part(
                     restore_to, contents[start : start + chunk_size], stream_start
                 )
+                _verif.sync(
+                    'write', path=file_path, offset=stream_start, size=chunk_size
+                )
 
             with glock:
                 bytes_tracker.update(chunk_size)
@@ -1496,15 +1509,19 @@ class Repository:
                 future.result()
 
             for file_path in referenced_paths:
+                _verif.sync('remove.before', path=file_path, digest=digest)
                 with glock:
                     digests = files_digests[file_path]
                     digests.remove(digest)
 
+                _verif.sync('remove', path=file_path, digest=digest)
                 if not digests:
                     logger.info('Finished writing file %s', file_path)
+                    _verif.sync('pop', path=file_path, digest=digest)
                     with glock:
                         restore_path, metadata = files_metadata.pop(file_path)
                     self.restore_metadata(restore_path, metadata)
+                    _verif.sync('utime', path=file_path, digest=digest)
                     finished_tracker.update()
 
         self.display_status('Loading snapshots')
